@@ -461,8 +461,9 @@ def check_spec(spec, acct, known=(), only_probe=None):
     if type(v).__dict__.get('__eq__') is not None:
       try:
         same = bool(c == v)
-      except Exception:  # pylint: disable=broad-except
-        same = True  # == itself raising (typed validator with a None limit) is outside the statement
+      except Exception as e:  # pylint: disable=broad-except
+        same = True
+        bad('C07/%s/%s-eq-raises' % (k, name), {'spec': sj}, 'comparing %s with its %s: %r' % (safe_str(v), name, e))
       if not same:
         bad('C07/%s/%s-not-equal' % (k, name), {'spec': sj}, '%s != %s' % (v, c))
 
